@@ -4,7 +4,6 @@ import (
 	"fmt"
 	"go/constant"
 	"go/token"
-	"go/types"
 	"sort"
 	"strings"
 
@@ -269,14 +268,8 @@ func bufferWriteList(t *tb, r *Result, buf ssa.Value, depth int) (string, []bwIt
 						} else if k, ok := a.(*ssa.Const); ok && k.Value != nil {
 							bind[p] = k.Value
 						}
-						if isIntegerType(a.Type()) {
-							child.subst[p] = t.term(a)
-						} else if i != pi {
-							if b, ok := a.Type().Underlying().(*types.Basic); ok && b.Info()&types.IsBoolean != 0 {
-								child.ssub[p] = "?bool"
-							} else {
-								child.ssub[p] = valTerm(t, r, a, depth+1)
-							}
+						if i != pi {
+							t.bindArg(child, p, a, func(v ssa.Value) string { return valTerm(t, r, v, depth+1) })
 						}
 					}
 					sub := specializeAt(f, bind, t.tables, depth+1)
@@ -439,23 +432,7 @@ func valInline(t *tb, r *Result, c *ssa.Call, idx int, depth int) (string, bool)
 		} else if k, ok := a.(*ssa.Const); ok && k.Value != nil {
 			bind[p] = k.Value
 		}
-		if isIntegerType(a.Type()) {
-			child.subst[p] = t.term(a)
-			if n := t.ubits(a); n < 64 {
-				if child.ub == nil {
-					child.ub = map[ssa.Value]int{}
-				}
-				child.ub[p] = n
-			}
-		} else if b, ok := a.Type().Underlying().(*types.Basic); ok && b.Info()&types.IsBoolean != 0 {
-			if n, ok := t.names[a]; ok {
-				child.ssub[p] = n
-			} else {
-				child.ssub[p] = "?bool"
-			}
-		} else {
-			child.ssub[p] = valTerm(t, r, a, depth+1)
-		}
+		t.bindArg(child, p, a, func(v ssa.Value) string { return valTerm(t, r, v, depth+1) })
 	}
 	sub := specializeAt(f, bind, t.tables, t.depth+1)
 	child.res = sub
